@@ -16,7 +16,7 @@ W = "include/boost/gil/"
 PATTERNS = ['^boost::gil::detail::is_allowed$', '^boost::gil::(read_image|read_view|read_and_convert_image|read_and_convert_view)$', '^boost::gil::reader_backend::', '^boost::gil::reader::', '^boost::gil::scanline_reader::',
             '^boost::gil::detail::(file_stream_device|istream_device)::', '^boost::gil::reader_base::',
             '^boost::gil::writer_backend::', '^boost::gil::writer::',
-            '^boost::gil::detail::(png|jpeg)_[A-Za-z0-9_]+::', '^boost::gil::detail::row_buffer_helper']
+            '^boost::gil::detail::(png|jpeg)_[A-Za-z0-9_]+::', '^boost::gil::detail::row_buffer_helper', '^boost::gil::image_read_settings_base::']
 
 
 def fmt_of(f):
@@ -65,8 +65,9 @@ def short_reads(rep, fns):
     for f in fns:
         if not re.search(r"::(reader|scanline_reader|reader_backend)::", "::" + f["name"].split("boost::gil::")[-1].rsplit("::", 1)[0] + "::"):
             continue
-        if fmt_of(f) not in ("bmp", "pnm", "targa"):
-            continue        # png/jpeg/tiff hand the bytes to the codec library, which validates them itself (CRC / marker structure)
+        if fmt_of(f) not in ("bmp", "pnm", "targa", "png", "jpeg"):
+            continue        # (tiff and raw have no device read of their own; png and jpeg feed libpng / libjpeg through a callback that has no way to
+            #                 report a short read but png_error / a fake EOI: libpng re-parses its stale chunk buffer for ever otherwise)
         g = R.canonize(f)      # the construct key must not depend on local names: locals appear as % (role: "a local"), members by name
         for c, p in R.find(g["body"], lambda x: x.get("k") == "Call" and x.get("member_call") and re.search(r"_device::read$", (x.get("callee") or {}).get("name", "")) and len(x.get("args", [])) == 2):
             site = (rel(f), f["name"].split("::")[-1], re.sub(r"[%#@&]\d+", "%", R.key(c["args"][1])))
@@ -100,6 +101,10 @@ def run(rep):
     eof_progress(rep, fns)
     scanline_buffers(rep, fns)
     size_arithmetic(rep, fns)
+    region_validated(rep, fns)
+    header_validation(rep, fns)
+    png_info_copies(rep, fns)
+    lockstep_bounds(rep, fns)
     from .p06 import accept_inconclusive
     accept_inconclusive(rep, "c11_inconclusive.json")
 
@@ -551,6 +556,9 @@ def palette_indices(rep, fns):
         rep.fail_analysis("R2a: no bmp reader<...,read_and_convert>::apply instantiation")
         return
     seen = {}
+    sized = {}
+    rep.rule("R2c bmp: the size the palette is resized to has an upper bound that does not depend on the 32-bit colour count of the header (it is at most 65536 under every "
+             "configuration): the header alone must not make the reader allocate and clear gigabytes")
     CASES = [(1, 0, "1bpp"), (4, 0, "4bpp"), (4, 2, "4bpp rle4"), (8, 0, "8bpp"), (8, 1, "8bpp rle8")]
     for bpp, comp, cname in CASES:
         ex = Scan(fns)
@@ -573,6 +581,11 @@ def palette_indices(rep, fns):
         if not idx or not rsz:
             rep.fail_analysis("R2a %s: no palette access reached (resize %d, index %d)" % (cname, len(rsz), len(idx)))
             continue
+        for e in [e for e in rsz if str(e.get("vec", "")).endswith("_palette")]:
+            k2 = "R2c:bmp:reader:%s:_palette.resize" % ((e.get("fn") or "").split("::")[-1])
+            ub = e["size_bounds"][1]
+            if k2 not in sized or (sized[k2][0] and not (ub is not None and ub <= 65536)):
+                sized[k2] = (ub is not None and ub <= 65536, ub, e["line"])
         for e in idx:
             key = "R2a:bmp:%s:%s:_palette[%s]" % (cname, (e["fn"] or "").split("::")[-1], e["idx"])
             ib, sb = e["idx_bounds"], e["size_bounds"]
@@ -599,6 +612,11 @@ def palette_indices(rep, fns):
             rep.fail_analysis("R2a scanline %s: the abstract run stops with %s at line %s" % (cname, st.why, st.line))
             continue
         idx = [e for e in ex.events if e["kind"] == "index" and not e["loopvar"]]
+        for e in [e for e in ex.events if e["kind"] == "resize" and str(e.get("vec", "")).endswith("_palette")]:
+            k2 = "R2c:bmp:scanline_reader:%s:_palette.resize" % ((e.get("fn") or "").split("::")[-1])
+            ub = e["size_bounds"][1]
+            if k2 not in sized or (sized[k2][0] and not (ub is not None and ub <= 65536)):
+                sized[k2] = (ub is not None and ub <= 65536, ub, e["line"])
         if not idx:
             rep.fail_analysis("R2a scanline %s: no palette access reached (row functions %d)" % (cname, len(ex.memfns)))
             continue
@@ -618,7 +636,15 @@ def palette_indices(rep, fns):
             rep.violation("R2a-palette-index", key, W + "extension/io/bmp/detail/%s:%s" % ("scanline_read.hpp" if "scanline" in key else "read.hpp", line),
                           {"index_range": [ib[0], ib[1]], "palette_size_at_least": sb[0],
                            "problem": "the index comes from the pixel data, the palette size from the header's number of colours: a file declaring fewer colours than its pixels use reads behind the palette"})
+    for k2, (ok, ub, line) in sorted(sized.items()):
+        rep.count("obligations:R2c")
+        if ok:
+            rep.ok("R2c-palette-size", k2, "size <= %s" % ub)
+        else:
+            rep.violation("R2c-palette-size", k2, W + "extension/io/bmp/detail/reader_backend.hpp:%s" % line, {"upper bound of the size": ub,
+                          "problem": "the palette is sized by the header's number of colours alone", "example": "a 74-byte 1-bit file with num_colors = 0x7fffffff allocates and clears 8 GB before the first palette byte is read"})
     rep.floor("obligations:R2a", 11)
+    rep.floor("obligations:R2c", 2)
 
 
 def mask_shifts(rep, fns):
@@ -685,6 +711,7 @@ def mask_shifts(rep, fns):
 def eof_progress(rep, fns):
     rep.rule("R6a both input devices' getc() raise io_error when the underlying get returns EOF (the comment/number skipping loops of the PNM parser rely on it to terminate)")
     rep.rule("R6b every loop that consumes input with getc_unchecked() compares the value with EOF on a path that leaves the loop")
+    rep.rule("R6c where such a token loop is nested in the loop over the samples of a row, the exit taken on EOF raises io_error (a return or break accepts a raster that ends early)")
     seen = set()
     for f in fns:
         m = re.match(r"boost::gil::detail::(file_stream_device|istream_device)::getc$", f["name"])
@@ -754,7 +781,25 @@ def eof_progress(rep, fns):
                 rep.ok("R6-eof", key, "EOF leaves the loop")
             else:
                 rep.violation("R6-eof", key, "%s:%s" % (rel(f), lp.get("line")), {"problem": "the loop reads with getc_unchecked() and has no exit taken on EOF: it does not terminate on truncated input"})
+            # R6c: inside a raster loop (the token loop is nested in the loop over the samples of a row) running out of input must be an error:
+            # a plain return leaves the rest of the row -- and of the image -- as it was (uninitialised memory for read_image)
+            outer = [a for a, fld, _ in _ if False]
+            nested = bool(R.find(f["body"], lambda x: x.get("k") in ("For", "While", "Do") and x is not lp and R.find(x.get("body"), lambda y: y is lp)))
+            if nested:
+                rep.count("obligations:R6c")
+                silent = []
+                for x, p in R.find(lp.get("body"), lambda x: x.get("k") in ("Return", "Break")):
+                    for anc, field, idx in p:
+                        if anc.get("k") == "If" and field == "then" and "== -1" in R.key(anc["cond"]) and not R.find(anc["then"], lambda y: y.get("k") == "Call" and (y.get("callee") or {}).get("name", "").endswith("io_error")):
+                            silent.append(x.get("line"))
+                k6 = key.replace("R6b:", "R6c:")
+                if silent:
+                    rep.violation("R6-raster-eof", k6, "%s:%s" % (rel(f), lp.get("line")), {"problem": "end of input (or a non-digit) inside the raster leaves the function silently: the remaining samples of the row and all later "
+                                  "rows keep their previous contents", "example": "\"P2\\n2 2\\n255\\n1 2\\n\" is accepted, pixels 1 2 ? ?", "silent exits at lines": silent})
+                else:
+                    rep.ok("R6-raster-eof", k6, "end of input inside the raster raises")
     rep.floor("obligations:R6", 4)
+    rep.floor("obligations:R6c", 2)
 
 
 def size_arithmetic(rep, fns):
@@ -810,3 +855,287 @@ def size_arithmetic(rep, fns):
             rep.violation("R8-size-arithmetic", k, R.fn_where(f), {"product": keyx, "computed_in": t, "interval_from_leaf_types": r, "operand_intervals": ops,
                           "witness": "operands %s and %s: the product %d does not fit %s" % (ops[0][1], ops[1][1], ops[0][1] * ops[1][1], t)})
     rep.floor("obligations:R8", 12)
+
+
+def region_validated(rep, fns):
+    """R10: the readers add _settings._top_left to row iterators and loop over _settings._dim; nothing else relates the region to the picture in the file."""
+    rep.rule("R10 the constructor of every reader back end (bmp, pnm, targa, png, jpeg, tiff) -- after read_header() and after a zero _dim has been replaced by the file's "
+             "dimensions -- compares the region of its settings with the header's width and height on a path to io_error: either in place, or by calling a function with "
+             "_info._width and _info._height whose body raises io_error under conditions on _top_left.x/.y and _dim.x/.y that involve its two parameters")
+    byid = {f["id"]: f for f in fns}
+    seen = set()
+    for f in fns:
+        if f["name"] != "boost::gil::reader_backend::reader_backend" or fmt_of(f) in seen or fmt_of(f) is None:
+            continue
+        if not R.find(f["body"], lambda x: x.get("k") == "Call" and (x.get("callee") or {}).get("name", "").endswith("::read_header")):
+            continue            # copy constructor and the like
+        fmt = fmt_of(f)
+        seen.add(fmt)
+        rep.count("obligations:R10")
+        key = "R10:%s:reader_backend::reader_backend" % fmt
+        verdict = None
+        hdr_line = min(x.get("line") or 0 for x, _ in R.find(f["body"], lambda x: x.get("k") == "Call" and (x.get("callee") or {}).get("name", "").endswith("::read_header")))
+        # (a) in place
+        for c, _ in R.find(f["body"], lambda x: x.get("k") == "Binary" and x.get("op") in ("<", "<=", ">", ">=")):
+            k = R.key(c)
+            if "_top_left" in k and ("_info._width" in k or "_info._height" in k) and (c.get("line") or 0) > hdr_line:
+                verdict = "compared in place: %s" % k[:120]
+        # (b) through a callee that gets the header's dimensions
+        for c, _ in R.find(f["body"], lambda x: x.get("k") == "Call" and (x.get("line") or 0) > hdr_line):
+            args = [R.key(a) for a in c.get("args", [])]
+            if not (any("_info._width" in a for a in args) and any("_info._height" in a for a in args)):
+                continue
+            g0 = byid.get((c.get("callee") or {}).get("id"))
+            if g0 is None:
+                continue
+            g = R.canonize(g0)
+            conds = [R.key(x) for x, _ in R.find(g["body"], lambda x: x.get("k") == "Binary" and x.get("op") in ("<", "<=", ">", ">="))]
+            raises = bool(R.find(g["body"], lambda x: x.get("k") == "Call" and re.search(r"io_error(_if)?$", (x.get("callee") or {}).get("name", ""))))
+            need = {"x": any("_top_left.x" in k and "$0" in k for k in conds) and any("_dim.x" in k and "$0" in k for k in conds),
+                    "y": any("_top_left.y" in k and "$1" in k for k in conds) and any("_dim.y" in k and "$1" in k for k in conds),
+                    "nonneg": any(re.search(r"_top_left\.x < 0|0 > .*_top_left\.x", k) for k in conds) and any(re.search(r"_top_left\.y < 0|0 > .*_top_left\.y", k) for k in conds)}
+            if raises and all(need.values()):
+                verdict = "validated by %s(%s)" % (g0["name"].split("::")[-1], ", ".join(a[-24:] for a in args))
+            elif verdict is None:
+                verdict = None
+        if verdict:
+            rep.ok("R10-region-validated", key, verdict)
+        else:
+            rep.violation("R10-region-validated", key, R.fn_where(f), {"problem": "the region (_settings._top_left, _settings._dim) is never compared with the header's dimensions",
+                          "example": "read_image(1x1 file, img, image_read_settings<tag>(point_t(1,0), point_t(4000,1))) copies 4000 pixels out of a 1-pixel row buffer"})
+    rep.floor("obligations:R10", 6)
+
+
+def header_validation(rep, fns):
+    """R9/R11/R12: the decoders GIL implements itself (bmp, pnm, targa) are the only ones to look at their header fields; what they do not reject they trust."""
+    rep.rule("R9 read_header of bmp, pnm and targa rejects a width or height below 1 (a comparison of _info._width and of _info._height with a lower bound on a path to "
+             "io_error; the three are siblings: targa has always had it), and a sign flip of a header field is guarded against the most negative value")
+    rep.rule("R11 a signature test rejects everything but the signature: the io_error guarded by a comparison of the first bytes read with a constant is taken when they "
+             "DIFFER, and the constant is the value the little-endian read_uint16 yields for the documented bytes")
+    rep.rule("R12 every switch over a header field in reader::apply / scanline_reader::initialize of bmp, pnm and targa has a default that raises io_error "
+             "(an unsupported value must not fall through to `return` with nothing decoded)")
+    seen = set()
+    for f in fns:
+        fmt = fmt_of(f)
+        if fmt not in ("bmp", "pnm", "targa") or f.get("body") is None:
+            continue
+        cls_fn = "::".join(f["name"].split("::")[-2:])
+        if cls_fn == "reader_backend::read_header" and ("R9", fmt) not in seen:
+            seen.add(("R9", fmt))
+            g = f
+            low = {"_width": None, "_height": None}
+            for c, p in R.find(g["body"], lambda x: x.get("k") == "Binary" and x.get("op") in ("<", "<=", "==")):
+                k = R.key(c)
+                for fld in low:
+                    if re.search(r"_info\.%s (< 1|<= 0|== 0)" % fld, k):
+                        # on a path to io_error: the comparison sits in the condition of an if whose then-arm raises, or in the argument of io_error_if
+                        for anc, field, idx in reversed(p):
+                            if anc.get("k") == "If" and field == "cond" and R.find(anc["then"], lambda y: y.get("k") == "Call" and (y.get("callee") or {}).get("name", "").endswith("io_error")):
+                                low[fld] = k[:80]
+                            if anc.get("k") == "Call" and (anc.get("callee") or {}).get("name", "").endswith("io_error_if"):
+                                low[fld] = k[:80]
+            rep.count("obligations:R9")
+            key = "R9:%s:reader_backend::read_header:dimensions" % fmt
+            if all(low.values()):
+                rep.ok("R9-dimensions", key, low)
+            else:
+                rep.violation("R9-dimensions", key, R.fn_where(f), {"lower bound found for": {k: bool(v) for k, v in low.items()},
+                              "example": "\"P5\\n0 2\\n255\\n\": BOOST_ASSERT(settings._dim.x && settings._dim.y) / &row.front() of an empty vector; bmp width -1 with read_view: null pointer arithmetic, SEGV"})
+            # negation of a header field
+            for c, p in R.find(g["body"], lambda x: x.get("k") == "Unary" and x.get("op") == "-" and "_info." in R.key(x.get("e") or {})):
+                rep.count("obligations:R9")
+                fld = R.key(c["e"])
+                key = "R9:%s:reader_backend::read_header:negation of %s" % (fmt, fld)
+                guarded = [k for op, l, r in R.guards(p) for k in ["%s %s %s" % (l, op, r)] if fld in k and re.search(r"-2147483648|-2147483647 - 1|INT_MIN|numeric_limits", k)]
+                # an earlier rejection of the minimum is as good
+                def is_min(n):
+                    return _cval(n) in ("-2147483648", "-9223372036854775808") or bool(re.search(r"numeric_limits<.*>::min\(\)|-2147483648|INT_MIN", R.key(n)))
+                earlier = [R.key(x) for x, _ in R.find(g["body"], lambda x: x.get("k") == "Binary" and x.get("op") in ("==", "<=") and (x.get("line") or 0) <= (c.get("line") or 0)
+                                                       and ((R.key(x["l"]) == fld and is_min(x["r"])) or (R.key(x["r"]) == fld and is_min(x["l"]))))]
+                if guarded or earlier:
+                    rep.ok("R9-dimensions", key, (guarded + earlier)[0][:100])
+                else:
+                    rep.violation("R9-dimensions", key, "%s:%s" % (rel(f), c.get("line")), {"problem": "-x of a 32-bit header field without excluding the most negative value: signed overflow, the field stays negative",
+                                  "example": "bmp height 0x80000000"})
+        if fmt == "bmp" and cls_fn == "reader_backend::read_header" and ("R11", fmt) not in seen:
+            seen.add(("R11", fmt))
+            rep.count("obligations:R11")
+            key = "R11:bmp:reader_backend::read_header:signature"
+            found = None
+            for c, p in R.find(f["body"], lambda x: x.get("k") == "Binary" and x.get("op") in ("==", "!=") and "read_uint16()" in R.key(x)):
+                const = R.key(c["r"]) if "read_uint16" in R.key(c["l"]) else R.key(c["l"])
+                raises_when_true = any(anc.get("k") == "If" and field == "cond" and R.find(anc["then"], lambda y: y.get("k") == "Call" and (y.get("callee") or {}).get("name", "").endswith("io_error"))
+                                       for anc, field, idx in p) or any(anc.get("k") == "Call" and (anc.get("callee") or {}).get("name", "").endswith("io_error_if") for anc, field, idx in p)
+                if raises_when_true:
+                    found = (c["op"], const)
+                    break
+            want = ord("B") | (ord("M") << 8)
+            if found and found[0] == "!=" and found[1] in (str(want), hex(want)):
+                rep.ok("R11-signature", key, "io_error unless read_uint16() == 0x%X ('B','M' little-endian)" % want)
+            else:
+                rep.violation("R11-signature", key, R.fn_where(f), {"test found": found, "expected": "io_error when read_uint16() != %d (0x%X: 'B' | 'M' << 8, read_uint16 is little-endian)" % (want, want),
+                              "example": "a file that starts with \"XY\" or with zeros passes the signature test; only \"MB\" is rejected"})
+        if cls_fn in ("reader::apply", "scanline_reader::initialize") and ("R12", fmt, cls_fn, f.get("line")) not in seen:
+            seen.add(("R12", fmt, cls_fn, f.get("line")))
+            for sw, _ in R.find(f["body"], lambda x: x.get("k") == "Switch" and "_info." in R.key(x.get("cond") or {})):
+                subject = re.sub(r"this\.|this->", "", R.key(sw["cond"]))
+                key = "R12:%s:%s:switch(%s)" % (fmt, cls_fn, subject)
+                if key in seen:
+                    continue
+                seen.add(key)
+                rep.count("obligations:R12")
+                # the labels of this switch, not those of switches nested in its cases
+                own = lambda pth: not any(a.get("k") == "Switch" for a, _, _ in pth)
+                defaults = [d for d, pth in R.find(sw.get("body"), lambda x: x.get("k") == "Default") if own(pth)]
+                raising = [d for d in defaults if R.find(d, lambda y: (y.get("k") == "Call" and (y.get("callee") or {}).get("name", "").endswith("io_error")) or y.get("k") == "Throw")]
+                cases = set()
+                for cs, pth in R.find(sw.get("body"), lambda x: x.get("k") == "Case"):
+                    if own(pth):
+                        v = _cval(cs.get("v"))
+                        cases.add(v if v is not None else R.key(cs.get("v") or {}))
+                # values admitted by read_header: `_info._type < a || _info._type > b` on a path to io_error
+                admitted = None
+                for h in fns:
+                    if fmt_of(h) == fmt and "::".join(h["name"].split("::")[-2:]) == "reader_backend::read_header":
+                        lo = hi = None
+                        for c, _ in R.find(h["body"], lambda x: x.get("k") == "Binary" and x.get("op") in ("<", ">") and subject in re.sub(r"this\.|this->", "", R.key(x))):
+                            kk = _cval(c["r"])
+                            if c["op"] == "<" and kk is not None:
+                                lo = int(kk)
+                            if c["op"] == ">" and kk is not None:
+                                hi = int(kk)
+                        if lo is not None and hi is not None:
+                            admitted = set(str(v) for v in range(lo, hi + 1))
+                        break
+                if raising:
+                    rep.ok("R12-switch-default", key, "default raises")
+                elif admitted is not None and admitted <= cases:
+                    rep.ok("R12-switch-default", key, "the cases cover the values read_header admits (%s..%s)" % (min(admitted, key=int), max(admitted, key=int)))
+                else:
+                    rep.violation("R12-switch-default", key, "%s:%s" % (rel(f), sw.get("line")), {"default present": bool(defaults), "problem": "a value without a case leaves the switch and the function returns with nothing decoded",
+                                  "example": "bmp with 2 bits per pixel through read_and_convert_image: returns normally, the image holds whatever it held"})
+    rep.floor("obligations:R9", 3)
+    rep.floor("obligations:R11", 1)
+    rep.floor("obligations:R12", 3)
+
+
+def _cval(n):
+    """the constant an expression evaluates to (clang's constant evaluator), as a decimal string"""
+    while isinstance(n, dict):
+        if "const" in n:
+            return str(n["const"])
+        if n.get("k") in ("Paren", "ImplicitCast", "ExplicitCast"):
+            n = n.get("e")
+        else:
+            return None
+    return None
+
+
+# out-parameters of libpng getters that point to ONE object inside png_info (png.h: "png_color_16p *trans_color", "png_color_16p *background", ...)
+PNG_SINGLE_OUT = {"png_get_tRNS": [4], "png_get_bKGD": [2], "png_get_sBIT": [2], "png_get_tIME": [2]}
+
+
+def png_info_copies(rep, fns):
+    rep.rule("R13 png reader_backend::read_header: every std::copy(src, src + N, &V.front()) into a member vector V is preceded, in the same block, by V.resize(N) with the same N "
+             "(siblings: palette, parameters, text, transparency do it)")
+    rep.rule("R14 a pointer that libpng returns through an out-parameter documented as a single object (png_get_tRNS trans_color, png_get_bKGD, png_get_sBIT, png_get_tIME) "
+             "is only dereferenced, never offset: p + n or p[n] reads past the one object inside png_info")
+    for f in fns:
+        if fmt_of(f) != "png" or "::".join(f["name"].split("::")[-2:]) != "reader_backend::read_header":
+            continue
+        g = R.canonize(f)
+        # R13
+        for c, p in R.find(g["body"], lambda x: x.get("k") == "Call" and (x.get("callee") or {}).get("name") == "std::copy" and len(x.get("args", [])) == 3):
+            dst = R.key(c["args"][2])
+            m = re.fullmatch(r"\(?&(.*)\.front\(\)\)?|\(?&(.*)\[0\]\)?", dst)
+            if not m:
+                continue
+            V = (m.group(1) or m.group(2))
+            last = R.key(c["args"][1])
+            first = R.key(c["args"][0])
+            mm = re.fullmatch(r"\((.*) \+ (.*)\)", last)
+            N = mm.group(2) if mm and mm.group(1) == first else None
+            rep.count("obligations:R13")
+            key = "R13:png:reader_backend::read_header:copy into %s" % re.sub(r"this\.|this->", "", V)
+            # the enclosing block and the statements before the copy
+            sized = False
+            for anc, field, idx in reversed(p):
+                if anc.get("k") == "Compound" and isinstance(idx, int):
+                    for st in (anc.get("c") or [])[:idx]:
+                        for r, _ in R.find(st, lambda x: x.get("k") == "Call" and re.search(r"::(resize|assign)$", (x.get("callee") or {}).get("name", ""))):
+                            k = R.key(r)
+                            if k.startswith(V + ".resize(") and N is not None and k == "%s.resize(%s)" % (V, N):
+                                sized = True
+                    break
+            if sized:
+                rep.ok("R13-sized-copy", key, "%s.resize(%s) precedes the copy" % (V, N))
+            else:
+                rep.violation("R13-sized-copy", key, "%s:%s" % (rel(f), c.get("line")), {"copy": "std::copy(%s, %s, %s)" % (first, last, dst), "problem": "the destination vector is not sized before the copy",
+                              "example": "a valid palette png with a hIST chunk and image_read_settings<png_tag>::_read_histogram = true: write through &_histogram.front() of an empty vector (SIGSEGV)"})
+        # R14
+        single = {}
+        for c, p in R.find(g["body"], lambda x: x.get("k") == "Call" and (x.get("callee") or {}).get("name") in PNG_SINGLE_OUT):
+            for i in PNG_SINGLE_OUT[c["callee"]["name"]]:
+                if i < len(c["args"]):
+                    a = R.key(c["args"][i]).strip("()")
+                    if a.startswith("&"):
+                        single[a[1:].strip("()")] = c["callee"]["name"]
+        for v, api in sorted(single.items()):
+            rep.count("obligations:R14")
+            key = "R14:png:reader_backend::read_header:%s out-parameter %d" % (api, PNG_SINGLE_OUT[api][0] + 1)
+            offs = []
+            for x, _ in R.find(g["body"], lambda x: (x.get("k") == "Binary" and x.get("op") in ("+", "-") and v in (R.key(x["l"]), R.key(x["r"]))) or
+                               (x.get("k") in ("Subscript", "Index") and R.key(x.get("base") or x.get("l") or {}) == v)):
+                other = x.get("r") if x.get("k") == "Binary" and R.key(x["l"]) == v else (x.get("l") if x.get("k") == "Binary" else x.get("index") or x.get("r"))
+                if _cval(other) != "0":
+                    offs.append((R.key(x)[:80], x.get("line")))
+            if offs:
+                rep.violation("R14-single-object", key, "%s:%s" % (rel(f), offs[0][1]), {"pointer": v, "offset in": [o[0] for o in offs], "problem": "%s returns the address of one object inside png_info" % api,
+                              "example": "a valid 8-bit palette png with a 200-entry tRNS chunk and _read_transparency_data = true: reads 200 png_color_16 (2000 bytes) from the single one in png_info"})
+            else:
+                rep.ok("R14-single-object", key, "%s is only dereferenced" % v)
+    rep.floor("obligations:R13", 2)
+    rep.floor("obligations:R14", 1)
+
+
+def lockstep_bounds(rep, fns):
+    """R15: a loop that walks two views in step and bounds the walk by one of them reads the other one out of bounds as soon as it is the smaller."""
+    rep.rule("R15 tiff reader::read_palette_image(dst, indices, rgb16): every loop whose body reads through an iterator taken from the index view (2nd parameter) is bounded by the "
+             "index view's extent -- its condition, after inlining single-assignment locals, mentions the index view (directly or inside a min) -- because check_image_size() "
+             "admits a destination larger than the picture")
+    seen = set()
+    for f in fns:
+        if fmt_of(f) != "tiff" or "::".join(f["name"].split("::")[-2:]) != "reader::read_palette_image" or len(f["params"]) != 3:
+            continue
+        if "true" not in f["params"][2]["type"] or f.get("line") in seen:
+            continue
+        seen.add(f.get("line"))
+        g = R.canonize(f)
+        inits = {}
+        for dn, _ in R.find(g["body"], lambda x: x.get("k") == "Decl"):
+            for dd in dn["decls"]:
+                if dd.get("name") and dd.get("init") is not None:
+                    inits[dd["name"]] = R.key(dd["init"])
+
+        def expand(k, depth=0):
+            # single-assignment locals that canonize keeps as names (iterators that are incremented later) are expanded through their initialisers
+            if depth > 4:
+                return k
+            for n, v in inits.items():
+                if re.search(r"(?<![\w%%#@&$])%s(?![\w])" % re.escape(n), k):
+                    k = re.sub(r"(?<![\w%%#@&$])%s(?![\w])" % re.escape(n), lambda m: expand(v, depth + 1), k)
+            return k
+        loops = [lp for lp, _ in R.find(g["body"], lambda x: x.get("k") == "For")]
+        for n, lp in enumerate(loops):
+            names = {x.get("name") for x, _ in R.find(lp["body"], lambda x: x.get("k") == "DeclRef")}
+            if "$1" not in names and not any("$1" in expand(inits.get(n, "")) for n in names if n):
+                continue
+            rep.count("obligations:R15")
+            cond = expand(R.key(lp["cond"]))
+            key = "R15:tiff:reader::read_palette_image:loop %d" % n
+            if "$1" in cond:
+                rep.ok("R15-lockstep-bound", key, cond[:160])
+            else:
+                rep.violation("R15-lockstep-bound", key, "%s:%s" % (rel(f), lp.get("line")), {"condition": cond[:200], "problem": "the loop steps through the index view but is bounded by the destination view only",
+                              "example": "a valid 4x2 8-bit palette tiff read into a 5x3 rgb16 view: reads past the 8-byte index image"})
+    rep.floor("obligations:R15", 2)
